@@ -3,7 +3,7 @@ CONSTANTS NLeaf = 6  NBlk = 3  NAsm = 2  MaxLevel = 2  LMax = 20000  VMax = 100
 CONSTANTS Parent <- TCoreParent  Area <- TCoreArea  Height <- TCoreHeight  Sym <- TCoreSym  W <- Wt  N0 <- TCoreN0  H0 <- TCoreH0
 CONSTANTS Targets <- TCoreTargetsAll  Vals <- ValsQ  Facs <- FacsQ  Masses <- MassesQ  Maps <- MapsQ  FracMaps <- FracMapsQ
 CONSTANTS LeafVolCut <- LeafVolCutEnv  ScaleRaises <- ScaleRaisesEnv
-INIT Init
+INIT InitB
 NEXT NextB
 CONSTRAINT Bound
 VIEW View
